@@ -109,7 +109,7 @@ CLAIMS = {
         engine="E2 loopvc",
         level="proof",
         technique="contract-based deductive verification: loop-invariant verification conditions generated from the real source of eg_id/ehe_id/sn_id/bg_id/wthh_id_numpy (dict/Counter/list as z3 arrays, quantified invariants, Skolem partner-row function), discharged by z3 for an unbounded number of rows; fg_id_numpy: staged contracts (index loop functional, assignment loop with nested loop: safety + range + family unit within household + non-partner adults never share) discharged the same way, the partition it computes bounded-exhaustive (the property's own bound)",
-        text="392 obligations: VCs (init, preservation per path and conjunct, order-free partition postconditions, exceptional post of sn_id, safety of dict look-ups) discharged for the five kernels and for the two stage contracts of fg_id_numpy (267 VCs: index inverts p_id, children lists sound / complete / non-empty; no KeyError / IndexError, every person gets an id in [0, #units), equal ids imply equal hh_id, two different persons of 25+ or with a child who share an id are partners; under the stronger VALID 'no partnered person is eligible as a child': partners share an id); collision / nesting lemmas; vacuity canaries. WHO SHARES an id in fg_id_numpy is checked against an independent executable unit definition on ALL typed pointer structures up to isomorphism and ALL row orders up to 4 persons (quick) / 5 persons (thorough): bounded, not counted as proved.",
+        text="512 obligations: VCs (init, preservation per path and conjunct, order-free partition postconditions, exceptional post of sn_id, safety of dict look-ups) discharged for the five kernels and for the two stage contracts of fg_id_numpy (387 VCs: index inverts p_id, children lists sound / complete / non-empty; no KeyError / IndexError, every person gets an id in [0, #units), equal ids imply equal hh_id, two different persons of 25+ or with a child who share an id are partners; under the stronger VALID 'no partnered person is eligible as a child': partners share an id; under the full unambiguity domain: a childless child under 25 has the id of every co-resident parent); collision / nesting lemmas; vacuity canaries. The full partition of fg_id_numpy (incl. ambiguous-free structures of the spec, as oracle and source of failing inputs) is ADDITIONALLY checked against an independent executable unit definition on ALL typed pointer structures up to isomorphism and ALL row orders up to 4 persons (quick) / 5 persons (thorough): bounded, not counted as proved.",
         note="VALID (unique ids, symmetric existing pointers, partners share a household, < 100 split-off children per family unit); Python ints mathematical; termination not verified; the partition postcondition of fg_id_numpy has no inductive invariant in reach (order-dependent overwriting) -> bounded exhaustive; structures with ambiguous unit definition (two co-resident parents that are not partners; partnered persons under 25 living with a parent) are excluded from its domain",
         ref="7 C12",
     ),
